@@ -10,10 +10,10 @@ P = dict(
          'always including blocks of 12..16 (thorough 25..40) consecutive failing tests; run through a private registry, through CommandLineTestRunner::runAllTestsMain '
          'and as a forked RUN_ALL_TESTS process, plain and nested inside an outer test; plus the complete table of (setup, body, teardown) outcome triples x 13 consecutive tests. '
          'Non-trivial = program in which at least one phase fails a check or throws; distinct by the sequence of per-test (setup, body, teardown) outcome triples over all repetitions',
-    floor=dict(quick=300, thorough=4000),
+    floor=dict(quick=1500, thorough=8000),
     counter_floor=dict(
-        quick=dict(programs_with_failing_run_longer_than_jump_buffer_stack=100, depth_checks_after_test=5000, process_runs=10, failed_flag_checks=5000, summaries_parsed=500),
-        thorough=dict(programs_with_failing_run_longer_than_jump_buffer_stack=3000, programs_with_failing_run_of_25_or_more=1000, depth_checks_after_test=200000, process_runs=100),
+        quick=dict(programs_with_failing_run_longer_than_jump_buffer_stack=1500, depth_checks_after_test=50000, process_runs=100, failed_flag_checks=50000, summaries_parsed=5000, runner_returned_zero=50, repetitions_ran_nothing=100),
+        thorough=dict(programs_with_failing_run_longer_than_jump_buffer_stack=8000, programs_with_failing_run_of_25_or_more=5000, depth_checks_after_test=1000000, process_runs=400, runner_returned_zero=300, repetitions_ran_nothing=500),
     ),
     assumptions=['Gcc platform (setjmp/longjmp jump-buffer stack of UtestPlatform.cpp)', 'rethrowing of unexpected exceptions is switched off (-e) whenever a program throws',
                  'crash-on-fail (-f), separate-process (-p) and shuffle (-s) runs are outside this check',
